@@ -375,9 +375,12 @@ def c05(scn, x):
                         recreated = True
                 elif u["k"] == "start" and not recreated:
                     if any(g[0] == suffix and g[2] == state for g in u["gets"]):
+                        # had the dependant's worker already taken part in the producer (examined or executed it) when the state was removed?
+                        involved = any(v["k"] in ("start", "door") and v["w"] == u["w"] and v.get("ident") == e.get("ident") for v in tr[:idx])
                         out.append({"what": f"state {state} of {suffix} removed by {e['w']} at t={e['t']} but dependant {u['short']} "
                                             f"starts on {u['w']} at t={u['t']} (pending at removal time)",
-                                    "signature": {"clause": "removed-before-dependant", "state": state}})
+                                    "signature": {"clause": "removed-before-dependant", "cross_worker": u["w"] != e["w"],
+                                                  "dependant_worker_involved_before_removal": involved}})
     return out
 
 
